@@ -86,7 +86,12 @@ def main() -> int:
         sh(["git", "-C", str(REPO), "worktree", "prune"])
         shutil.rmtree(scratch, ignore_errors=True)
     run_checks(claimed)  # restore evidence from the clean tree
-    if not only:
+    if only:
+        # re-evaluated seeds replace their rows in the stored matrix
+        fresh = {r["seed"]: r for r in rows}
+        rows = [fresh.pop(r["seed"], r) for r in json.loads((VERIF / "seeded" / "matrix.json").read_text())] + list(fresh.values())
+        rows.sort(key=lambda r: r["seed"])
+    if True:
         (VERIF / "seeded" / "matrix.json").write_text(json.dumps(rows, indent=1))
         head = sh(["git", "-C", str(REPO), "log", "--format=%h", "-1"]).stdout.strip()
         out = [f"# Seeded changes x checks (quick tier), /repo at {head}", "",
